@@ -92,6 +92,33 @@ FindResource(U, dr, d, u) ==
      ELSE IF rem # {} THEN Addr(CHOOSE e \in rem : TRUE, <<>>)
      ELSE NoTarget
 
+
+\* ---- JSON Pointer fragments given as raw reference tokens (RFC 6901), used when a
+\* reference comes from a real document rather than from a generated universe.
+\* A token is [raw |-> text, id |-> string id of the text, pid |-> pattern id of the
+\* text ("" if none), n |-> its value as an array index, -1 if it is not a canonical one].
+JsonKW == [raw \in {"$defs", "definitions", "properties", "patternProperties", "dependentSchemas", "dependencies",
+                    "prefixItems", "allOf", "anyOf", "oneOf", "items", "additionalItems", "contains", "unevaluatedItems",
+                    "additionalProperties", "propertyNames", "unevaluatedProperties", "not", "if", "then", "else",
+                    "contentSchema"} |->
+             CASE raw = "$defs" -> "defs" [] raw = "dependencies" -> "depSchemas" [] OTHER -> raw]
+RECURSIVE DerefToks(_, _)
+DerefToks(s, toks) ==
+  IF toks = <<>> THEN [ok |-> TRUE, p |-> <<>>]
+  ELSE IF "bool" \in DOMAIN s \/ Head(toks).raw \notin DOMAIN JsonKW THEN [ok |-> FALSE, p |-> <<>>]
+  ELSE LET f0 == JsonKW[Head(toks).raw]
+           f == IF f0 = "items" /\ "itemsArray" \in DOMAIN s THEN "itemsArray" ELSE f0
+           rest == Tail(toks)
+           step(seg, more) == LET r == DerefToks(Sub(s, seg), more) IN [ok |-> r.ok, p |-> <<seg>> \o r.p]
+       IN IF f \notin DOMAIN s THEN [ok |-> FALSE, p |-> <<>>]
+          ELSE IF f \in SingleKW THEN step(SegK(f), rest)
+          ELSE IF rest = <<>> THEN [ok |-> FALSE, p |-> <<>>]
+          ELSE IF f \in SeqKW THEN
+                 (IF Head(rest).n >= 0 /\ (Head(rest).n + 1) \in DOMAIN s[f] THEN step(SegI(f, Head(rest).n + 1), Tail(rest))
+                  ELSE [ok |-> FALSE, p |-> <<>>])
+          ELSE LET key == IF f = "patternProperties" THEN Head(rest).pid ELSE Head(rest).id
+               IN IF key \in DOMAIN s[f] THEN step(SegN(f, key), Tail(rest)) ELSE [ok |-> FALSE, p |-> <<>>]
+
 \* The absolute URI (without fragment) a reference at address a points to.
 RefURI(U, dr, a, ref) == ResolveURI(BaseAt(dr, Doc(U, a.d), a.p), ref.u)
 
@@ -104,6 +131,9 @@ Designates(U, dr, a, ref) ==
           IN CASE ref.f.k = "none" -> r
                [] ref.f.k = "ptr"  ->
                     IF HasPath(NodeAtS(D.s, r.p), ref.f.p) THEN Addr(r.d, r.p \o ref.f.p) ELSE NoTarget
+               [] ref.f.k = "toks" ->
+                    LET r0 == DerefToks(NodeAtS(D.s, r.p), ref.f.toks)
+                    IN IF r0.ok THEN Addr(r.d, r.p \o r0.p) ELSE NoTarget
                [] ref.f.k = "name" ->
                     LET c == {p \in ResNodes(dr, D, r.p) : ref.f.a \in AnchorsOf(dr, NodeAtS(D.s, p))}
                     IN IF Cardinality(c) = 1 THEN Addr(r.d, CHOOSE p \in c : TRUE) ELSE NoTarget
